@@ -98,7 +98,7 @@ inductive EvalOutcome (ρ : Type)
   | contDefault
   | err (e : MockError)
   | userPanic
-  deriving Repr
+  deriving Repr, DecidableEq
 
 /-! ### builder (src/build.rs) -/
 
@@ -149,16 +149,21 @@ def Segment.stored {ρ} (s : Segment ρ) : Resp ρ :=
     else .ret v false
   | r => r
 
+/-- an unquantified last segment is implicitly `once` when the chain itself is used as a `Clause`
+    and either came through `QuantifyReturnValue` (`Clause for QuantifyReturnValue` calls `once()`)
+    or the pattern is ordered (`Clause for Quantify` adds `quantify(1, Exact)`) -/
+def implicitOnce (topLevel : Bool) (mode : Mode) (viaQRV : Bool) : Bool :=
+  topLevel && (viaQRV || mode == .inOrder)
+
+def Builder.applyQuant {α ρ} (b : Builder α ρ) (topLevel : Bool) (s : Segment ρ) : Builder α ρ :=
+  match s.quant with
+  | .once => b.quantify 1 .exact
+  | .nTimes n => b.quantify n .exact
+  | .atLeastTimes n => b.quantify n .atLeast
+  | .unquantified => if implicitOnce topLevel b.mode s.viaQRV then b.quantify 1 .exact else b
+
 def Builder.segment {α ρ} (b : Builder α ρ) (topLevel : Bool) (s : Segment ρ) (isLast : Bool) : Builder α ρ :=
-  let b := b.pushResponder s.stored
-  let b := match s.quant with
-    | .once => b.quantify 1 .exact
-    | .nTimes n => b.quantify n .exact
-    | .atLeastTimes n => b.quantify n .atLeast
-    | .unquantified =>
-      if !topLevel then b
-      else if s.viaQRV then b.quantify 1 .exact
-      else if b.mode = .inOrder then b.quantify 1 .exact else b
+  let b := (b.pushResponder s.stored).applyQuant topLevel s
   if isLast then b else b.then_
 
 def buildChain {α ρ} (b : Builder α ρ) (topLevel : Bool) : List (Segment ρ) → Builder α ρ
@@ -169,30 +174,33 @@ def buildChain {α ρ} (b : Builder α ρ) (topLevel : Bool) : List (Segment ρ)
 /-! ### responder lookup (src/call_pattern.rs + std `binary_search_by`, rustc 1.95) -/
 
 /-- The loop of `core::slice::binary_search_by` as shipped with the pinned toolchain:
-    `while size > 1 { half = size/2; mid = base+half; base = if cmp(mid) == Greater {base} else {mid}; size -= half }` -/
-def bsLoop (keys : Array Nat) (k : Nat) : Nat → Nat → Nat
-  | size, base =>
-    if _h : size > 1 then
+    `while size > 1 { half = size/2; mid = base+half; base = if cmp(mid) == Greater {base} else {mid}; size -= half }`
+    (structural recursion on a fuel argument; `size` iterations always suffice, see `bsLoop_inv`) -/
+def bsLoop (keys : Array Nat) (k : Nat) : Nat → Nat → Nat → Nat
+  | 0, _, base => base
+  | fuel+1, size, base =>
+    if size > 1 then
       let half := size / 2
       let mid := base + half
-      bsLoop keys k (size - half) (if keys[mid]! > k then base else mid)
+      bsLoop keys k fuel (size - half) (if keys[mid]! > k then base else mid)
     else base
-termination_by size => size
-decreasing_by omega
 
 /-- `Ok i` ↦ `(true, i)`, `Err i` ↦ `(false, i)` -/
 def binarySearch (keys : Array Nat) (k : Nat) : Bool × Nat :=
   if keys.size = 0 then (false, 0) else
-  let base := bsLoop keys k keys.size 0
+  let base := bsLoop keys k keys.size keys.size 0
   if keys[base]! = k then (true, base)
   else (false, base + (if keys[base]! < k then 1 else 0))
 
-/-- `find_responder_by_call_index` -/
-def findResponderIdx {ρ} (rs : List (Responder ρ)) (callIndex : Nat) : Option Nat :=
-  if rs.isEmpty then none else
-  match binarySearch (rs.map (·.start)).toArray callIndex with
+/-- `find_responder_by_call_index` on the array of start indexes -/
+def findKey (keys : Array Nat) (k : Nat) : Option Nat :=
+  if keys.size = 0 then none else
+  match binarySearch keys k with
   | (true, i) => some i
   | (false, i) => some (i - 1)
+
+def findResponderIdx {ρ} (rs : List (Responder ρ)) (callIndex : Nat) : Option Nat :=
+  findKey (rs.map (·.start)).toArray callIndex
 
 /-! ### evaluation (src/eval.rs, src/fn_mocker.rs) -/
 
